@@ -27,6 +27,9 @@ def make(family, rng, tier):
     else:
         scn = sysgen.gen(rng, rng.choice(ALGOS) if ALGOS else None, PROP, tier)
     scn["oracles"] = ORACLES
+    if family == "sys" and rng.random() < 0.3:
+        scn["reuse_ids"] = True
+        scn["reuse_seed"] = rng.randint(0, 10 ** 6)
     return scn
 
 
@@ -40,4 +43,4 @@ def plan(tier):  # noqa: F811
             ("chaos", 1000 if q else 20000)]
 
 
-WANT_PROBES = ["uncontended_checked", "empty_class", "nothing_arrived", "nothing_finished", "pipelines_completed"]
+WANT_PROBES = ["pipeline_id_reused", "uncontended_checked", "empty_class", "nothing_arrived", "nothing_finished", "pipelines_completed"]
